@@ -325,8 +325,12 @@ class Monitor(object):
                         asn = struct.unpack('!I', cv)[0]
                     elif cc in (1,) and cl != 4:
                         return None
-                    elif cc == 69 or cc == 5 or cc == 71:
-                        return None     # family tables: not classified here
+                    elif cc == 69 and cl % 4 != 0:
+                        pass            # `while len(v) % 4 == 0 and v`: a value of another length lists nothing
+                    elif cc == 5 and cl % 6 != 0:
+                        return None     # truncated extended-next-hop tuple: malformed capability, not classified
+                    # ADD-PATH (69), extended next hop (5) and LLGR (71) with whole tuples: whatever families and values
+                    # they name, known to the agent or not, the capability does not invalidate the OPEN (RFC 5492)
             if asn == 0 or asn != self.cfg['remote_as']:
                 return ('openerr', 2)
             if hold in (1, 2):
